@@ -59,6 +59,8 @@ inline void gen_params(Src &s, Params &p, size_t n, size_t total, bool allow_cla
     p.bucket = n >= 2 ? (uint32_t)n : 2;
     for (uint32_t d = 2 + s.byte() % 7, k = 0; k < 16; k++, d++) if (d >= 2 && n % d == 0) { p.bucket = d; break; }
   }
+  // bucket sizes at which MEMALLOC * bucketsize leaves 32 bits (2^17 and 2^18 with the default 32768)
+  if ((b == 7 || b == 8) && n % 4 == 3) p.bucket = 131072u * (1 + (uint32_t)(n / 4) % 2);
   if (p.bucket < 2) p.bucket = 2;
   if (allow_clamp) {
     uint32_t c = s.pick({200, 28, 28});
@@ -165,7 +167,7 @@ inline std::vector<std::string> gen_strings(Src &s, int nclass, bool thorough, G
   if (prefer_textlike && s.byte() % 4 != 3) family = 9;
   if (family == 7 && nclass < 5) family = 0;   // the big skewed text is a large-class shape
   if (nclass == 7) { static const int big[] = {9, 1, 0, 9}; family = big[s.byte() % 4]; }   // text-like, numerals, incremental
-  if (nclass == 8) family = 10;
+  if (nclass == 8) family = fnv(s.p, s.n) % 4 == 0 ? 11 : 10;   // chosen without consuming input
   if (const char *ff = getenv("VERIF_FAMILY")) family = atoi(ff);  // development aid
   int lo = n_lo[nclass], hi = n_hi[nclass];
   size_t n = lo + s.below(hi - lo + 1);
@@ -323,6 +325,19 @@ inline std::vector<std::string> gen_strings(Src &s, int nclass, bool thorough, G
       for (size_t k = 0; k < shorts; k++) { std::string t; size_t L = 1 + ps.below(9); for (size_t q = 0; q < L; q++) t += sym(); S.push_back(t); }
       break;
     }
+    case 11: {  // a member r and the member 0x80 + r (the front-coded form of r: VByte 0 + r) as neighbours in one bucket
+      XorShift x(seed ^ 0xa11a5);
+      std::string r;
+      size_t L = 5 + x.below(56);
+      for (size_t q = 0; q < L; q++) r += (char)A[x.below(asize)];
+      if ((unsigned char)r[0] >= 0x80 || (unsigned char)r[0] < 3) r[0] = 'b';
+      S.push_back(std::string(1, (char)((unsigned char)r[0] - 1)));
+      S.push_back(r);
+      S.push_back(std::string(1, (char)0x80) + r);
+      size_t extra = x.below(3);
+      for (size_t k = 0; k < extra; k++) { std::string t(1, (char)0x81); size_t l2 = 1 + x.below(8); for (size_t q = 0; q < l2; q++) t += (char)A[x.below(asize)]; S.push_back(t); }
+      break;
+    }
     case 8: {  // one long string among short ones
       for (size_t k = 0; k < n; k++) { std::string t; size_t L = 1 + ps.below(5); for (size_t q = 0; q < L; q++) t += sym(); S.push_back(t); }
       std::string t;
@@ -332,6 +347,14 @@ inline std::vector<std::string> gen_strings(Src &s, int nclass, bool thorough, G
       S.push_back(t);
       break;
     }
+  }
+  // strings that begin like a front-coded entry of another member: byte 0x80 (the VByte of "nothing shared")
+  // or 0x81 followed by a whole member - decoders that expand a Re-Pair rule while still reading the VByte meet
+  // their longest case here.  No input byte is consumed: one member in 23 gets such a companion.
+  if (std::find(A.begin(), A.end(), (uint8_t)0x80) != A.end() && nclass <= 5) {
+    size_t n0 = S.size();
+    for (size_t i = 0; i < n0; i++)
+      if (fnv(S[i].data(), S[i].size()) % 23 == 0) S.push_back(std::string(1, (char)(0x80 + (i & 1))) + S[i]);
   }
   if (S.empty()) S.push_back(std::string(1, (char)A[0]));
   std::sort(S.begin(), S.end(), [](const std::string &a, const std::string &b) {
